@@ -33,7 +33,8 @@ LEVEL = "exploration"
 RULE = ("complete enumeration of (command in {onboard, unlock, changepin, pubkeys}) x device "
         "state (mode {bootloader, signer, ui-heartbeat, unknown, foreign byte} x onboarded {yes, "
         "no, error} x echo {ok, bad} x platform {Ledger, SGX}) x operator input (PIN valid / 7 "
-        "chars / digits only / non-alphanumeric / 9 chars / absent-then-typed; any-pin flag; "
+        "chars / digits only / non-alphanumeric / 9 chars / trailing newline / CR / NUL / leading "
+        "space / non-ASCII digit / absent-then-typed; any-pin flag; "
         "answer yes / no / n / other-then-yes / other-then-no; no-unlock flag; new-PIN classes); "
         "non-trivial = combination in which exactly one precondition fails, or all hold; "
         "distinct = distinct combinations")
